@@ -111,27 +111,13 @@ func (api *API) mapDecodeBasedOnType(ctx context.Context, mapVal any, value refl
 			sliceValue := sliceFromArray(value.Elem())
 			sliceValueType := sliceValue.Type()
 			if sliceValueType.AssignableTo(bytesType) {
-				innerTS, ok := api.typeSettingsRegistry.GetByType(valueType)
-				if !ok {
-					return ierrors.Errorf("missing type settings for interface %s", valueType)
-				}
+				// mirrors the encoder: the settings registered for the pointer type decide whether the bytes are wrapped
+				// in an object with the type code or written as a plain hex string
+				innerTS, _ := api.typeSettingsRegistry.GetByType(valueType)
 
-				fieldKey := keyDefaultSliceArray
-				if innerTS.fieldKey != nil {
-					fieldKey = *innerTS.fieldKey
-				}
-
-				m, ok := mapVal.(map[string]any)
-				if !ok {
-					return ierrors.Errorf("non map[string]any in byte array map decode, got %T instead", mapVal)
-				}
-				fieldValStr, ok := m[fieldKey].(string)
-				if !ok {
-					return ierrors.Errorf("non string value for byte array field %s, got %T instead", fieldKey, m[fieldKey])
-				}
-				byteSlice, err := DecodeHex(fieldValStr)
+				byteSlice, err := mapDecodeBytes(mapVal, innerTS)
 				if err != nil {
-					return ierrors.Wrap(err, "failed to read byte slice from map")
+					return err
 				}
 
 				if opts.validation {
@@ -163,13 +149,9 @@ func (api *API) mapDecodeBasedOnType(ctx context.Context, mapVal any, value refl
 		sliceValue := sliceFromArray(value)
 		sliceValueType := sliceValue.Type()
 		if sliceValueType.AssignableTo(bytesType) {
-			fieldValStr, ok := mapVal.(string)
-			if !ok {
-				return ierrors.Errorf("non string value for byte array, got %T instead", mapVal)
-			}
-			byteSlice, err := DecodeHex(fieldValStr)
+			byteSlice, err := mapDecodeBytes(mapVal, ts)
 			if err != nil {
-				return ierrors.Wrap(err, "failed to read byte slice from map")
+				return err
 			}
 			copy(sliceValue.Bytes(), byteSlice)
 			fillArrayFromSlice(value, sliceValue)
@@ -473,13 +455,9 @@ func (api *API) mapDecodeStructFields(
 func (api *API) mapDecodeSlice(ctx context.Context, mapVal any, value reflect.Value,
 	valueType reflect.Type, ts TypeSettings, opts *options) error {
 	if valueType.AssignableTo(bytesType) {
-		fieldValStr, ok := mapVal.(string)
-		if !ok {
-			return ierrors.Errorf("non string value for byte slice field, got %T instead", mapVal)
-		}
-		byteSlice, err := DecodeHex(fieldValStr)
+		byteSlice, err := mapDecodeBytes(mapVal, ts)
 		if err != nil {
-			return ierrors.Wrap(err, "failed to read byte slice from map")
+			return err
 		}
 
 		if opts.validation {
@@ -593,4 +571,35 @@ func (api *API) mapDecodeMap(ctx context.Context, mapVal any, value reflect.Valu
 	}
 
 	return nil
+}
+
+// mapDecodeBytes reads the bytes of a byte array or byte slice the way mapEncodeSlice writes them: as an object that
+// holds the type code and the hex string (under the field key of the type settings) if the type settings have an object
+// type, as a plain hex string otherwise.
+func mapDecodeBytes(mapVal any, ts TypeSettings) ([]byte, error) {
+	fieldVal := mapVal
+	if ts.ObjectType() != nil {
+		fieldKey := keyDefaultSliceArray
+		if ts.fieldKey != nil {
+			fieldKey = *ts.fieldKey
+		}
+
+		m, ok := mapVal.(map[string]any)
+		if !ok {
+			return nil, ierrors.Errorf("non map[string]any in byte array map decode, got %T instead", mapVal)
+		}
+		fieldVal = m[fieldKey]
+	}
+
+	fieldValStr, ok := fieldVal.(string)
+	if !ok {
+		return nil, ierrors.Errorf("non string value for byte array or byte slice, got %T instead", fieldVal)
+	}
+
+	byteSlice, err := DecodeHex(fieldValStr)
+	if err != nil {
+		return nil, ierrors.Wrap(err, "failed to read byte slice from map")
+	}
+
+	return byteSlice, nil
 }
